@@ -166,10 +166,10 @@ namespace TAO_PEGTL_NAMESPACE
 
       void require( const std::size_t amount )
       {
-         if( m_current.data + amount <= m_end ) {
+         if( amount <= buffer_occupied() ) {
             return;
          }
-         if( m_current.data + amount > m_buffer.get() + m_maximum ) {
+         if( amount > m_maximum - buffer_free_before_current() ) {
 #if defined( __cpp_exceptions )
             throw std::overflow_error( "require() beyond end of buffer" );
 #else
